@@ -29,6 +29,7 @@ def edge_trees():
         _t("E_set_val", Cfg("X", S, "x", defaults=[('"xv"', None)]), Cfg("G", B, "g", sets=[("Y", "X", None)]), Cfg("Y", S, "y", defaults=[('"d"', None)])),
         _t("E_set_val_int", Cfg("X", I, "x", defaults=[("4", None)]), Cfg("G", B, "g", sets=[("Y", "X", None)]), Cfg("Y", I, "y", defaults=[("1", None)])),
         _t("E_setdef_src", Cfg("X", B, "x", set_defaults=[("Y", "5", None)]), Cfg("D", B, "d", defaults=[("y", None)]), Cfg("Y", I, "y", depends=["D"], defaults=[("1", None)])),
+        _t("E_setdef_promptless", Cfg("X", B, "x", defaults=[("y", None)], set_defaults=[("Y", '"on"', None), ("YI", "7", None)]), Cfg("D", B, "d", defaults=[("y", None)]), Cfg("Y", S, None, depends=["D"]), Cfg("YI", I, None, depends=["D"]), Cfg("Z", B, "z", depends=['Y = "on"'], defaults=[("y", None)])),
         _t("E_setdef_cond", Cfg("X", B, "x"), Cfg("G", B, "g", set_defaults=[("Y", '"weak"', "X")]), Cfg("Y", S, "y", defaults=[('"d"', None)])),
         _t("E_setdef_val", Cfg("X", S, "x", defaults=[('"xv"', None)]), Cfg("G", B, "g", set_defaults=[("Y", "X", None)]), Cfg("Y", S, "y", defaults=[('"d"', None)])),
         _t("E_if", Cfg("X", B, "x"), If("X", [Cfg("Y", B, "y", defaults=[("y", None)]), Cfg("YI", I, "yi", defaults=[("3", None)])])),
